@@ -280,8 +280,25 @@ def _initial_policy(ctx, cls, file, col):
     construct = "PolicyIteration._initialize_policy"
     tries = [s for s in fn.body if isinstance(s, ast.Try)]
     if len(tries) != 1:
-        col.add("R5.5", construct, file, fn.lineno, False, "no try/except protocol in _initialize_policy", text="initial policy protocol")
-        return
+        # another way of deciding whether the problem supplies an initial policy.  `Problem.initial_policy` raises NotImplementedError by
+        # default, so a problem supplies one iff SOME class on its MRO below Problem (or the instance) defines it.  Tests that look at
+        # one namespace only are wrong for the others; anything else is not a protocol this rule knows (no verdict).
+        src_tests = [ast.unparse(n.test) for n in ast.walk(fn) if isinstance(n, (ast.If, ast.IfExp))]
+        narrow = [t for t in src_tests if "initial_policy" in t and ("vars(" in t or "__dict__" in t)]
+        always = [t for t in src_tests if "initial_policy" in t and ("hasattr(" in t or "callable(" in t)]
+        if narrow:
+            col.add("R5.5", construct, file, fn.lineno, False,
+                    f"`{narrow[0][:90]}` looks for initial_policy in one namespace only: a policy inherited from an intermediate base class or a mixin "
+                    "(or set on the instance) is not found there, and the solver silently starts from the greedy fallback instead of the supplied policy",
+                    text="initial policy protocol")
+            return
+        if always:
+            col.add("R5.5", construct, file, fn.lineno, False,
+                    f"`{always[0][:90]}` is true for every problem (Problem itself defines initial_policy, raising NotImplementedError): the fallback is "
+                    "never taken and problems without an initial policy fail", text="initial policy protocol")
+            return
+        raise AnalysisError(f"{construct}: the choice between the problem's initial policy and the greedy fallback is not made by try / except "
+                            "NotImplementedError; R5.5 does not know this protocol")
     tr = tries[0]
     hs = tr.handlers
     ok_h = len(hs) == 1 and hs[0].type is not None and ast.unparse(hs[0].type) == "NotImplementedError"
